@@ -1,7 +1,7 @@
 package rules
 
 import (
-	"go/token"
+	"fmt"
 	"strings"
 
 	"golang.org/x/tools/go/ssa"
@@ -248,83 +248,58 @@ func checkFreshTranslation(p *engine.Prog, r *engine.Report) {
 }
 
 // checkParamFilter is R2.8: the labels that populateLabels derives from the job's params are removed again before a
-// target is shipped (the shard's Prometheus adds them itself from the generated job). A label is matched against the
-// params by its full name "__param_<key>", or by its name with exactly that prefix removed; a name mangled in any other
-// way (cut-set trimming, replacing) drops labels the job does not define or keeps ones it does.
+// target is shipped (the shard's Prometheus adds them itself from the generated job). Whatever way the names are
+// matched (a list or set of "__param_"+key, a lookup by the name without its prefix), a label name must not be
+// mangled on the way: cut-set trimming (strings.Trim/TrimLeft/TrimRight with the prefix as the set of characters) or
+// replacing inside a name drops labels the job does not define or keeps ones it does. Where the pinned idiom is used
+// (names searched in a list), the list must hold exactly "__param_"+key for the keys of the params.
 func checkParamFilter(p *engine.Prog, r *engine.Report) {
-	n := 0
+	var probs, how []string
+	nFn := 0
 	for _, fn := range p.Funcs {
-		if !engine.InPkg(fn, pkgDisc) || fn.Parent() != nil || len(fn.Params) != 2 || fn.Signature.Results().Len() != 1 {
+		if !engine.InPkg(fn, pkgDisc) {
 			continue
 		}
-		if !strings.HasSuffix(fn.Params[0].Type().String(), "labels.Labels") || fn.Params[1].Type().String() != "net/url.Values" || !strings.HasSuffix(fn.Signature.Results().At(0).Type().String(), "labels.Labels") {
-			continue
-		}
-		n++
+		nFn++
 		fi := p.Info(fn)
-		param := fn.Params[1]
-		var probs []string
-		var how []string
 		isKey := func(t string) bool {
-			// "__param_" + <range key of param>
 			for _, in := range allInstrs(fn) {
-				if rg, ok := in.(*ssa.Range); ok && rg.X == ssa.Value(param) && t == `("__param_" + rk:`+rg.Name()+`)` {
+				if rg, ok := in.(*ssa.Range); ok && rg.X.Type().String() == "net/url.Values" && t == `("__param_" + rk:`+rg.Name()+`)` {
 					return true
 				}
 			}
 			return false
 		}
 		for _, in := range allInstrs(fn) {
-			switch x := in.(type) {
-			case *ssa.Call:
-				callee := x.Call.StaticCallee()
-				if callee == nil || callee.Name() != "FindString" || len(x.Call.Args) != 2 {
-					continue
+			call, ok := in.(*ssa.Call)
+			if !ok || call.Call.StaticCallee() == nil {
+				continue
+			}
+			callee := call.Call.StaticCallee()
+			if callee.Pkg != nil && callee.Pkg.Pkg.Path() == "strings" {
+				switch callee.Name() {
+				case "Trim", "TrimLeft", "TrimRight", "TrimFunc", "TrimLeftFunc", "TrimRightFunc", "Replace", "ReplaceAll":
+					args := ""
+					for _, a := range call.Call.Args {
+						args += fi.T(a).S + " "
+					}
+					if strings.Contains(args, ".Name") && strings.Contains(args, `"__param_"`) {
+						probs = append(probs, "a label name is passed through strings."+callee.Name()+" with the param prefix in "+engine.FuncName(fn)+" ("+p.Rel(call.Pos())+"): that is not the removal of exactly the prefix")
+					}
 				}
-				if !strings.HasSuffix(fi.T(x.Call.Args[0]).S, ".Name") {
-					probs = append(probs, "the searched value is "+short(fi.T(x.Call.Args[0]).S)+", not the label's name")
-				}
-				elems := collectedElems(x.Call.Args[1])
-				if len(elems) == 0 {
-					probs = append(probs, "the list of names searched is not built from the job's params in this function")
-				}
+			}
+			if callee.Name() == "FindString" && len(call.Call.Args) == 2 && strings.HasSuffix(fi.T(call.Call.Args[0]).S, ".Name") {
+				elems := collectedElems(call.Call.Args[1])
 				for _, e := range elems {
-					if !isKey(fi.T(e).S) {
-						probs = append(probs, "the names searched are "+short(fi.T(e).S)+", not \"__param_\" + key for each key of the params")
+					if strings.Contains(fi.T(e).S, `"__param_"`) && !isKey(fi.T(e).S) {
+						probs = append(probs, "the names searched in "+engine.FuncName(fn)+" are "+short(fi.T(e).S)+", not \"__param_\" + key for each key of the params")
 					}
-				}
-				how = append(how, "full names searched in the list of \"__param_\"+key")
-			case *ssa.Lookup:
-				if x.X != ssa.Value(param) {
-					continue
-				}
-				kt := fi.T(x.Index).S
-				okKey := false
-				if kc, ok := x.Index.(*ssa.Call); ok && engine.CalleeIs(kc.Common(), "strings", "", "TrimPrefix") && len(kc.Call.Args) == 2 {
-					if pv, ok := constString(kc.Call.Args[1]); ok && pv == "__param_" && strings.HasSuffix(fi.T(kc.Call.Args[0]).S, ".Name") {
-						okKey = true
+					if isKey(fi.T(e).S) {
+						how = append(how, "full names searched in the list of \"__param_\"+key in "+engine.FuncName(fn))
 					}
-				}
-				if sl, ok := x.Index.(*ssa.Slice); ok && sl.High == nil && sl.Low != nil && fi.T(sl.Low).IsConst() && fi.T(sl.Low).K == int64(len("__param_")) && strings.HasSuffix(fi.T(sl.X).S, ".Name") {
-					okKey = true
-				}
-				if !okKey {
-					probs = append(probs, "the params are looked up by "+short(kt)+", not by the label's name with exactly the prefix \"__param_\" removed")
-				}
-				how = append(how, "params looked up by the name without its prefix")
-			case *ssa.BinOp:
-				if x.Op == token.EQL && (isKey(fi.T(x.X).S) && strings.HasSuffix(fi.T(x.Y).S, ".Name") || isKey(fi.T(x.Y).S) && strings.HasSuffix(fi.T(x.X).S, ".Name")) {
-					how = append(how, "full name compared with \"__param_\"+key")
 				}
 			}
 		}
-		if len(how) == 0 && len(probs) == 0 {
-			r.Add("R2.8-param-labels", "filter "+engine.FuncName(fn), engine.FuncName(fn)+" ("+p.Rel(fn.Pos())+")", "labels named __param_<key of the job's params> are removed, and only those", "the way label names are matched against the params is not recognised", engine.Undecided)
-			continue
-		}
-		r.Check(len(probs) == 0, "R2.8-param-labels", "filter "+engine.FuncName(fn), engine.FuncName(fn)+" ("+p.Rel(fn.Pos())+")", "labels named __param_<key of the job's params> are removed, and only those", strings.Join(append(probs, how...), "; "))
 	}
-	if n == 0 {
-		r.Add("R2.8-param-labels", "filter", pkgDisc, "a function (labels, params) -> labels in pkg/discovery", "none found", engine.Undecided)
-	}
+	r.Check(len(probs) == 0 && nFn > 0, "R2.8-param-labels", "matching label names against the job's params", fmt.Sprintf("%d functions of pkg/discovery", nFn), "label names are compared as they are, or with exactly the prefix __param_ removed", strings.Join(append(probs, how...), "; "))
 }
